@@ -6,8 +6,9 @@ import argparse, json, os, subprocess, shutil, sys
 V = os.path.dirname(os.path.dirname(os.path.abspath(__file__)))
 def main():
     ap = argparse.ArgumentParser(); ap.add_argument("-k", type=int, default=8); ap.add_argument("--seeds", default="2,3")
-    ap.add_argument("--only", nargs="*"); ap.add_argument("--tier", default="quick"); ap.add_argument("--tag", default="par"); a = ap.parse_args()
-    ids = sorted(d for d in os.listdir(os.path.join(V, "seeded")) if os.path.exists(os.path.join(V, "seeded", d, "patch.diff")))
+    ap.add_argument("--only", nargs="*"); ap.add_argument("--tier", default="quick"); ap.add_argument("--tag", default="par"); ap.add_argument("--harmless", action="store_true"); a = ap.parse_args()
+    kind = "harmless" if a.harmless else "seeded"; script = "run_harmless.py" if a.harmless else "run_seeded.py"
+    ids = sorted(d for d in os.listdir(os.path.join(V, kind)) if os.path.exists(os.path.join(V, kind, d, "patch.diff")))
     if a.only: ids = [i for i in ids if i in a.only]
     # spread the changes of one property over the workers (they take about the same time)
     shares = [ids[i::a.k] for i in range(a.k)]
@@ -16,18 +17,20 @@ def main():
         if not sh_: continue
         C = "/var/tmp/verif-%s-%d" % (a.tag, i)
         subprocess.run("rm -rf %s && rsync -a --exclude .claude --exclude replays %s/ %s/" % (C, V, C), shell=True, check=True)
-        cmd = "cd %s && python3 tools/run_seeded.py --tier %s --seeds %s --only %s > %s/par.log 2>&1" % (C, a.tier, a.seeds, " ".join(sh_), C)
+        cmd = "cd %s && python3 tools/%s --tier %s --seeds %s --only %s > %s/par.log 2>&1" % (C, script, a.tier, a.seeds, " ".join(sh_), C)
         procs.append((C, subprocess.Popen(cmd, shell=True), sh_))
     for C, p, _ in procs: p.wait()
-    rj = os.path.join(V, "seeded", "results.json"); allr = json.load(open(rj))
+    rj = os.path.join(V, kind, "results.json"); allr = json.load(open(rj)) if os.path.exists(rj) else {}
     for C, _, share in procs:
-        r = json.load(open(os.path.join(C, "seeded", "results.json")))
+        r = json.load(open(os.path.join(C, kind, "results.json")))
         for k, v in r.items():
             # only what THIS worker ran: its copy of results.json also holds stale rows of the other shares
             if any(k.endswith("|%s|%s" % (s, a.tier)) for s in a.seeds.split(",")) and k.split("|")[0] in share: allr[k] = v
         shutil.copy(os.path.join(C, "par.log"), os.path.join("/var/tmp", os.path.basename(C) + ".log"))
         shutil.rmtree(C, ignore_errors=True)
     json.dump(allr, open(rj, "w"), indent=1, sort_keys=True)
+    if a.harmless:
+        print("harmless results merged:", {k: v["result"] for k, v in allr.items() if v["result"] != "silent"}); return
     with open(os.path.join(V, "seeded", "RESULTS.md"), "w") as f:
         f.write("# Seeded changes vs checks (latest run of each change/check/seed/tier)\n\n| seeded change | check | seed | tier | result | first report | s | /repo HEAD |\n|---|---|---|---|---|---|---|---|\n")
         for k in sorted(allr):
